@@ -144,7 +144,7 @@ def model_runs(tier):
     if tier == "quick":
         # the model is explored exhaustively; of the longer single-run behaviours every 5th (offset by VERIF_SEED) is replayed
         return [{"module": "MC_Basic", "cfg": "MC_Basic", "workers": 8, "stride": 5,
-                 "constants": {"MaxK": "2", "Objs": "{1, 2}", "MaxRuns": "1", "MaxCb": "1"}},
+                 "constants": {"MaxK": "2", "Objs": "{1, 2}", "MaxRuns": "1", "MaxCb": "1", "MaxFun": "1"}},
                 {"module": "MC_Basic", "cfg": "MC_Basic", "workers": 8, "stride": 1,
                  "constants": {"MaxK": "1", "Objs": "{1, 2}", "MaxRuns": "2", "MaxCb": "1"}},
                 {"module": "MC_Basic", "cfg": "MC_Basic", "workers": 4, "expect_violation": "E_ExactlyOncePerEvaluation",
